@@ -76,6 +76,9 @@ defvjp(solve, partial(grad_solve, 0), partial(grad_solve, 1))
 
 
 def norm_vjp(ans, x, ord=None, axis=None):
+    if isinstance(axis, tuple):
+        axis = tuple(a % x.ndim for a in axis)
+
     def check_implemented():
         matrix_norm = (x.ndim == 2 and axis is None) or isinstance(axis, tuple)
 
@@ -132,6 +135,9 @@ defvjp(norm, norm_vjp)
 
 
 def norm_jvp(g, ans, x, ord=None, axis=None):
+    if isinstance(axis, tuple):
+        axis = tuple(a % x.ndim for a in axis)
+
     def check_implemented():
         matrix_norm = (x.ndim == 2 and axis is None) or isinstance(axis, tuple)
 
